@@ -73,6 +73,11 @@ C04_CORPUS = [
     # longer than the picture-control-set pools at one logical processor: pooled objects are recycled, so state left behind by an
     # earlier picture (stale flags, counters, condition variables) meets the scheduler's reorderings
     ({'logical_processors': 1, 'enable_tpl_la': 1}, {'kind': 'moving', 'seed': 13}, 44, (64, 64)),
+    # overlay pictures share picture number, input and pooled objects with their alt-ref while both are in flight in different stages;
+    # in-loop restoration on (preset 6) so that per-thread working copies of the reconstruction matter; recon off (with recon on the
+    # drain deadlock KF-C27-recon-drain-deadlock is met first)
+    ({'logical_processors': 4, 'enable_overlays': 1, 'hierarchical_levels': 3, 'enc_mode': 6, 'qp': 20, 'recon_enabled': 0}, {'kind': 'grainy', 'seed': 15, 'val': 64}, 26, (128, 128)),
+    ({'logical_processors': 8, 'enable_overlays': 1, 'hierarchical_levels': 3, 'enc_mode': 8, 'recon_enabled': 0}, {'kind': 'moving', 'seed': 17}, 34, (64, 64)),
 ]
 
 @check('C04')
